@@ -223,7 +223,12 @@ class C08(Prop):
     theorems = ["C08_invariant_checker_sound", "C08_quantile_search_never_fails_internally",
                 "C08_quantile_order_wf", "C08_merging_loop_total", "C08_grouping_preserves_wf",
                 "C08_ordinal_fit_never_fails_internally", "C08_categorical_fit_never_fails_internally",
-                "C08_quantitative_fit_wf_or_clean_failure"]
+                "C08_quantitative_fit_wf_or_clean_failure",
+                "C08_quantitative_fit_end_to_end", "C08_ordinal_fit_end_to_end",
+                "C08_categorical_fit_end_to_end", "C08_grouping_family_preserves_wf",
+                "C08_stage1_candidates_apply_wf", "C08_stage2_candidates_apply_wf",
+                "C08_carve_kept_grouping_good", "C08_carve_kept_order_wf",
+                "C08_carve_two_stage_order_wf", "C08_fit_pipeline_wf_end_to_end"]
     rule = ("degenerate-input generator: 2-150 rows; per feature one of constant / all-missing / near-unique "
             "/ many equally rare values / spike / heavy ties / two values / rare tail / plain, NaN share 0-33%, "
             "numeric-looking categories, ordinal rankings with never-observed values; all classes "
